@@ -584,6 +584,8 @@ class Exec:
         """heap array (and ref term if loop-invariant) named by an assigns target of a callee"""
         vc = self.vc
         # target forms: x.f  (x a callee parameter) ; deeper paths -> whole field
+        if kind == 'fieldall':
+            return (self.fieldall_heap(cc.pkg, ex)[0], None)
         if kind == 'elems' and ex[0] != 'field':
             env = {}
             for pn, pt in zip(self.callee_param_names(cf, cc, None), self.callee_param_types(cf, cc)):
@@ -965,6 +967,15 @@ class Exec:
         what = loc.fname if loc.kind == 'field' else loc.kind
         self.oblige('frame', 'store to %s is within assigns' % what, self.reach, or_(*alts), ['C19'], ins.get('line', 0))
 
+    def fieldall_heap(self, pkg, ex):
+        sts = resolve_type(self.prog, pkg, ('name', ex[0]))
+        ev = SpecEval(self.vc, pkg, {}, None, None)
+        path = ev.find_field(sts, ex[1])
+        if not path or len(path) != 1:
+            raise ContractError('assigns any(%s).%s: no such field' % ex)
+        st_, fn_, ft_ = path[0]
+        return self.vc.field_heap(st_, fn_, ft_)
+
     def assign_set(self):
         """[(heapname, ref term or None)] for the function's own assigns clause (entry state)"""
         if hasattr(self, '_aset'):
@@ -974,6 +985,9 @@ class Exec:
         amap = dict(self.entry_env)
         for kind, ex, text in c.assigns or []:
             ev = self.spec(self.entry_env, self.entry_state)
+            if kind == 'fieldall':
+                out.append((self.fieldall_heap(c.pkg, ex)[0], None))
+                continue
             if kind == 'elems' and ex[0] != 'field':
                 try:
                     sl = ev.eval(ex)
@@ -1338,7 +1352,9 @@ class Exec:
         # recursion: measure must decrease
         if cf is not None and callee == self.top.f.name and self.top.contract is not None:
             tc = self.top.contract
-            if tc.decreases is None:
+            if tc.assume_terminates:
+                pass
+            elif tc.decreases is None:
                 self.oblige('decreases', 'recursive call without decreases clause', self.reach, 'false', ['C03'], line, site=site)
             else:
                 ev0 = SpecEval(vc, tc.pkg, self.top.entry_env, self.top.entry_state, None)
@@ -1391,6 +1407,11 @@ class Exec:
     def havoc_target(self, cc, env, kind, ex, text, pre, post, line, site):
         vc = self.vc
         ev = SpecEval(vc, cc.pkg, env, pre, None)
+        if kind == 'fieldall':
+            hn, hs = self.fieldall_heap(cc.pkg, ex)
+            post.set(hn, vc.declare(hn + '$c', hs))
+            self.caller_frame(hn, '0', text, line, site)
+            return
         if kind == 'elems' and ex[0] != 'field':
             try:
                 sl = ev.eval(ex)
